@@ -49,7 +49,19 @@ def run_repro(spec, rec):
     f, model, kwargs, expected, ref_terms, spin, init = ag.prepare(qv, spec)
     with warnings.catch_warnings():
         warnings.simplefilter("ignore")
+        explicit = not isinstance(kwargs.get("schedule"), str)
+        if explicit:
+            # first call: the explicit schedule as a plain list of floats; second call: the same temperatures in the
+            # drawn form (ints, tuple, numpy array, generator, Fractions) - still the identical call
+            temps = list(spec["schedule"][1])
+            kwargs = dict(kwargs, schedule=ag.schedule_in_form(temps, "list"))
         r1 = lib(f, model, what=spec["func"], **kwargs)
+        if explicit:
+            kwargs = dict(kwargs, schedule=ag.schedule_in_form(temps, spec.get("sched_form")))
+        # the second call is identical; every third case hands the *same integer* over as a numpy integer
+        # (np.int64(s) == s: still the same fixed non-negative integer seed)
+        if kwargs.get("seed") is not None and spec["seed"] % 3 == 0:
+            kwargs = dict(kwargs, seed=(np.int64 if spec["seed"] % 2 else np.int32)(kwargs["seed"]))
         r2 = lib(f, model, what=spec["func"], **kwargs)
     a = [(sorted(r.state.items(), key=repr), r.value, r.spin) for r in r1]
     b = [(sorted(r.state.items(), key=repr), r.value, r.spin) for r in r2]
@@ -228,7 +240,9 @@ def dist_strategy():
                 # in-order visiting is compared only where the order is pinned: Matrix kinds that stay
                 # Matrix on the way to the kernel (anneal_pubo turns a QUBOMatrix into a labelled model)
                 "in_order": bool(in_order and gen.is_matrix(kind)
-                                 and not (func == "anneal_pubo" and kind == "QUBOMatrix")), "seed": seed}
+                                 and not (func == "anneal_pubo" and kind == "QUBOMatrix")), "seed": seed,
+                # temperatures 1, 2, 4, 0 are integral: handed over as python ints, a tuple or a numpy array in some cases
+                "sched_form": ("list", "ints", "list", "tuple", "ints", "ndarray")[seed % 6]}
     pairs = [(f, k) for f in ag.FUNCS for k in ag.FUNCS[f][1]]
     pairs = pairs + [p for p in pairs if gen.is_matrix(p[1])] * 2     # in-order kernels need Matrix kinds
     return st.sampled_from(pairs).flatmap(lambda fk: st.builds(
